@@ -350,6 +350,75 @@ def _one_horiz_case(c):
 
 # ----------------------------------------------------------------------------------------
 
+# ----------------------------------------------------------------------------------------
+# semi-Lagrangian vertical advection step (SemiLagrangian.tla)
+# ----------------------------------------------------------------------------------------
+
+@functools.lru_cache(maxsize=None)
+def _sl_grid():
+  from harness import dataflow
+  import numpy as np
+  grid = dataflow.make_grid({'M': 2, 'L': 3})
+  jax, jnp = _jax()
+  c00 = float(np.asarray(grid.to_modal(jnp.ones(grid.nodal_shape)))[0, 0])
+  return grid, c00
+
+
+def _sl_cases(cases):
+  """All cases of one level set in one vmapped call: out = W f level-wise for every spectral
+  coefficient of every 3-D field; velocity as derived; surface fields and clock untouched."""
+  import numpy as np
+  jax, jnp = _jax()
+  from dinosaur import coordinate_systems, primitive_equations as pe, sigma_coordinates
+  out = []
+  grid, c00 = _sl_grid()
+  c0 = cases[0]
+  b = np.array(c0['b'], np.float64) / c0['den']
+  K = len(b) - 1
+  n = len(cases)
+  coords = coordinate_systems.CoordinateSystem(grid, sigma_coordinates.SigmaCoordinates(b))
+  rs = np.random.RandomState(K * 1000 + sum(c0['b']))
+  mask = np.asarray(grid.mask, np.float64)
+  fld = lambda: rs.randint(-4, 5, size=(n, K) + grid.modal_shape).astype(np.float64) * mask
+  div = np.zeros((n, K) + grid.modal_shape)
+  div[:, :, 0, 0] = np.array([c['d'] for c in cases], np.float64) * c00
+  lnps = np.zeros((n, 1) + grid.modal_shape)
+  lnps[:, 0, 0, 0] = 0.37
+  vor, tv, q = fld(), fld(), fld()
+  clock = 1.25 + np.arange(n)
+  state = pe.StateWithTime(jnp.asarray(vor), jnp.asarray(div), jnp.asarray(tv), jnp.asarray(lnps),
+                           tracers={'q': jnp.asarray(q)}, sim_time=jnp.asarray(clock))
+  dts = np.array([c['dt'][0] / c['dt'][1] for c in cases])
+  vel = np.asarray(jax.vmap(lambda st: pe.compute_vertical_velocity(st, coords))(state))
+  got = jax.vmap(lambda st, dt: pe.semi_lagrangian_vertical_advection_step(st, coords, dt))(state, jnp.asarray(dts))
+  for i, c in enumerate(cases):
+    exp_vel = np.array([_val(v) for v in c['vel']])
+    dv = np.max(np.abs(vel[i] - exp_vel[:, None, None]))
+    if not dv <= 1e-13 * max(1.0, np.max(np.abs(exp_vel))):
+      out.append({'case': c, 'sig': 'sl:velocity',
+                  'detail': f'vertical velocity at layer centres differs from the spec by {dv:.3e}: code column '
+                            f'{vel[i][:, 0, 0].tolist()} spec {exp_vel.tolist()}'})
+    if not c['mono']:
+      continue
+    W = np.array([[_val(v) for v in row] for row in c['W']])
+    pairs = [('vorticity', vor[i], got.vorticity[i]), ('divergence', div[i], got.divergence[i]),
+             ('temperature_variation', tv[i], got.temperature_variation[i]), ('tracers.q', q[i], got.tracers['q'][i])]
+    for name, x, y in pairs:
+      exp = np.einsum('jk,kml->jml', W, x)
+      y = np.asarray(y)
+      err = np.max(np.abs(y - exp))
+      if not err <= 2e-12 * max(1.0, np.max(np.abs(exp))):
+        j = np.unravel_index(np.argmax(np.abs(y - exp)), y.shape)
+        out.append({'case': c, 'sig': f'sl:field:{name}',
+                    'detail': f'b={c["b"]}/{c["den"]} d={c["d"]} dt={dts[i]}: coefficient {tuple(int(v) for v in j)}: '
+                              f'code {y[j]!r} spec (W f) {exp[j]!r}; W={W.tolist()}'})
+    if not np.array_equal(np.asarray(got.log_surface_pressure[i]), lnps[i]):
+      out.append({'case': c, 'sig': 'sl:surface_touched', 'detail': 'log surface pressure changed by the vertical advection step'})
+    if float(got.sim_time[i]) != clock[i]:
+      out.append({'case': c, 'sig': 'sl:clock_touched', 'detail': f'sim_time changed to {float(got.sim_time[i])}'})
+  return out
+
+
 def _one(item):
   k = item['kind']
   if k == '1d':
@@ -358,6 +427,8 @@ def _one(item):
     return _one_column_case(item['case'])
   if k == 'horiz':
     return _one_horiz_case(item['case'])
+  if k == 'sl':
+    return _sl_cases(item['cases'])
   raise common.MachineryError(f'unknown item kind {k}')
 
 
@@ -385,7 +456,7 @@ def replay_items(items):
 
 
 def replay(ctx, kind, cases):
-  items = [{'kind': '1d', 'cases': cases}] if kind == '1d' else [{'kind': kind, 'case': c} for c in cases]
+  items = [{'kind': kind, 'cases': cases}] if kind in ('1d', 'sl') else [{'kind': kind, 'case': c} for c in cases]
   for m in replay_items(items):
     ctx.mismatch(m['kind'], m['case'], m['sig'], m['detail'])
 
@@ -396,8 +467,9 @@ def run(ctx):
   specs = [('Interp', ['CallInterp', 'CallDotInterp', 'CallVerticalInterpolation', 'CallSLVerticalInterp',
                        'CallLinearExtrap', 'CallSafeExtrap']),
            ('InterpColumns', ['PressureToSigma', 'SigmaToPressure', 'HybridToSigma', 'SurfacePressure']),
-           ('HorizInterp', ['Bilinear', 'Nearest'])]
-  with concurrent.futures.ThreadPoolExecutor(3) as ex:
+           ('HorizInterp', ['Bilinear', 'Nearest']),
+           ('SemiLagrangian', ['Velocity', 'Depart', 'Weights'])]
+  with concurrent.futures.ThreadPoolExecutor(4) as ex:
     futs = [ex.submit(ctx.tlc, m, f'{m}_{tier}.cfg', workers=6) for m, _ in specs]
     runs = [f.result() for f in futs]
   ctx.tlc_runs.sort(key=lambda r: r.module)
@@ -405,7 +477,10 @@ def run(ctx):
     ctx.require_actions(r, acts)
     if not r.cases:
       raise common.MachineryError(f'{m}: nothing exported')
-  one_d, cols, hor = (r.cases for r in runs)
+  one_d, cols, hor, sl = (r.cases for r in runs)
+  sl.sort(key=lambda c: (c['b'], c['d'], c['dt']))
+  if not any(not c['mono'] for c in sl) or not any(c['mono'] and any(v[0] for v in c['vel']) for c in sl):
+    raise common.MachineryError('vacuous export: semi-Lagrangian cases lack moving / unordered configurations')
   cols.sort(key=lambda c: (c['scen'], c['sb'], c['pl'], str(c['hy']), c['g'], str(c['geo'])))
   hor.sort(key=lambda c: (str(c['src']), str(c['tgt'])))
   for i, c in enumerate(cols):
@@ -425,6 +500,10 @@ def run(ctx):
     cs.sort(key=lambda c: (c['xp'], c['fp']))
   items = [{'kind': '1d', 'cases': cs} for _, cs in sorted(by_n.items(), key=lambda kv: -len(kv[1]))]
   rest = [{'kind': 'column', 'case': c} for c in cols] + [{'kind': 'horiz', 'case': c} for c in hor]
+  by_b = {}
+  for c in sl:
+    by_b.setdefault(tuple(c['b']), []).append(c)
+  rest += [{'kind': 'sl', 'cases': cs} for _, cs in sorted(by_b.items())]
   # a handful of column cases also run eagerly (jax.disable_jit: no tracing of the decorators)
   for it in rest[:: max(1, len(rest) // 8)]:
     if it['kind'] == 'column' and it['case']['scen'] != 'p2s':
@@ -436,7 +515,12 @@ def run(ctx):
                             outdir=os.path.join(ctx.out, 'par'))
   for m in res:
     ctx.mismatch(m['kind'], m['case'], m['sig'], m['detail'])
-  ctx.replayed += len(one_d) + len(cols) + len(hor)
+  ctx.replayed += len(one_d) + len(cols) + len(hor) + len(sl)
+  ctx.comparisons += 7 * len(sl)
+  for c in sl:
+    ctx.distinct.add(('sl', tuple(c['b']), tuple(c['d']), tuple(c['dt'])))
+  ctx.notes['semi_lagrangian_cases'] = {'ordered': sum(1 for c in sl if c['mono']), 'unordered_velocity_only': sum(1 for c in sl if not c['mono'])}
+  ctx.sample(next(c for c in sl if c['mono'] and any(v[0] for v in c['vel']) and len(c['b']) == 4))
   nq = sum(len(c['q']) for c in one_d)
   ctx.comparisons += nq * 8          # 8 direct routine variants per query (+ field layouts)
   ctx.comparisons += sum(36 * (len(c['sb']) + len(c['pl'])) if c['scen'] in ('p2s', 's2p') else 12 for c in cols)
